@@ -410,4 +410,7 @@ def conc_value(v, a, subs, dom):
     b = as_bits(v, a.w)
     if isinstance(b, int): return ['b', b]
     e = eval_term(bv(b, a.w), subs)
-    return ['b', e.as_long()] if z3.is_bv_value(e) else None
+    if z3.is_bv_value(e): return ['b', e.as_long()]
+    from .fdom import uf_concrete
+    u = uf_concrete(e)
+    return ['b', u] if u is not None else None
